@@ -239,6 +239,12 @@ MonBad(ev, i, c) ==
   (IF "C03" \in Focus /\ strictc /\ DelimFreePrefixes(c) /\ \E s \in base : ~P_C03(c, s, A) THEN {<<"mon", "C03">>} ELSE {}) \cup
   (IF "C06" \in Focus /\ strictc /\ \E s \in base : ~P_C06(c, s, A) THEN {<<"mon", "C06">>} ELSE {}) \cup
   (IF "C07" \in Focus /\ strictc /\ \E s \in base : ~P_C07(c, s, A) THEN {<<"mon", "C07">>} ELSE {}) \cup
+  \* compress_strict / expand_strict ARE the strict=True calls: the logged outcomes agree to the exception CLASS
+  (IF "C07" \in Focus /\ \E k \in {k \in 1..Len(ev.pt) : ev.pt[k].i = i} :
+        LET a == ev.pt[k].a IN
+        \/ ("expand_strict" \in DOMAIN a /\ "expand@s" \in DOMAIN a /\ a["expand_strict"] # a["expand@s"])
+        \/ ("compress_strict" \in DOMAIN a /\ "compress@s" \in DOMAIN a /\ a["compress_strict"] # a["compress@s"])
+   THEN {<<"mon", "C07", "strict_variant_differs">>} ELSE {}) \cup
   (IF "C08" \in Focus /\ strictc /\ \E s \in full : ~P_C08(c, s, A) THEN {<<"mon", "C08">>} ELSE {}) \cup
   (IF "C08" \in Focus /\ strictc /\ \E k \in pfull : ~P_C08pair(c, S(ev.ppt[k].p), S(ev.ppt[k].id), AP) THEN {<<"mon", "C08p">>} ELSE {})
 
